@@ -112,6 +112,8 @@ def P_list():
     return [
         ("int(<d>) >= 1", lambda t: truthy_all([(m,) for m in D(t)], lambda m: int(m) >= 1)),                       # raises on 'x'
         ("int(<d>) == 1", lambda t: truthy_all([(m,) for m in D(t)], lambda m: int(m) == 1)),
+        ("int(<d>) in (1, 2)", lambda t: truthy_all([(m,) for m in D(t)], lambda m: int(m) in (1, 2))),                 # an EXPRESSION constraint that raises on 'x'
+        ("12 % int(<d>) == 0 or False", lambda t: truthy_all([(m,) for m in D(t)], lambda m: 12 % int(m) == 0 or False)),
         ("int(<item>.<d>) <= 1", lambda t: truthy_all([(m,) for m in dot(I(t), "<d>")], lambda m: int(m) <= 1)),
         ("len(*<item>..<d>) >= 2", lambda t: len(dotdot(I(t), "<d>")) >= 2),
         ("len(*<start>.<item>) <= 2", lambda t: len(dot(S(t), "<item>")) <= 2),
